@@ -35,6 +35,12 @@ func (e ev) String() string {
 	case "del":
 		return fmt.Sprintf("Delete(%s)", strings.Join(e.path, "/"))
 	}
+	if e.kind == "sync" {
+		return "Sync"
+	}
+	if e.kind == "reopen" {
+		return "<stream ends; Close; Subscribe again on the same client>"
+	}
 	return "Connected"
 }
 
@@ -50,7 +56,7 @@ func alphabet() []ev {
 	for _, p := range [][]string{{"t", "a", "x"}, {"t", "a"}, {"t", "*"}, {"t", "a", "*"}, {"t", "*", "x"}, {"*"}, {"t"}, {"*", "a", "*"}} {
 		out = append(out, ev{kind: "del", path: p, ts: 3})
 	}
-	return append(out, ev{kind: "connected"})
+	return append(out, ev{kind: "connected"}, ev{kind: "sync"}, ev{kind: "reopen"})
 }
 
 // matches: the path tree's query/delete semantics (see h/c09).
@@ -73,17 +79,21 @@ func matches(q, l []string) bool {
 type impl struct {
 	q      client.Query
 	script []ev
-	pos    int
+	pos    *int
 }
 
 func (s *impl) Subscribe(ctx context.Context, q client.Query) error { s.q = q; return nil }
 func (s *impl) Recv() error {
-	if s.pos >= len(s.script) {
+	if *s.pos >= len(s.script) {
 		return io.EOF
 	}
-	e := s.script[s.pos]
-	s.pos++
+	e := s.script[*s.pos]
+	*s.pos++
 	switch e.kind {
+	case "reopen":
+		return io.EOF
+	case "sync":
+		return s.q.NotificationHandler(client.Sync{})
 	case "upd":
 		return s.q.NotificationHandler(client.Update{Path: append([]string{}, e.path...), TS: time.Unix(0, e.ts), Val: e.val})
 	case "del":
@@ -96,6 +106,15 @@ func (s *impl) Poll() error  { return nil }
 
 func vio(class, format string, a ...interface{}) []seqmc.Violation {
 	return []seqmc.Violation{{Class: class, Msg: fmt.Sprintf(format, a...)}}
+}
+
+func protect(f func() error) (err error) {
+	defer func() {
+		if r := recover(); r != nil {
+			err = fmt.Errorf("panic: %v", r)
+		}
+	}()
+	return f()
 }
 
 type harness struct{}
@@ -121,7 +140,7 @@ func (harness) Specs(tier string) []seqmc.Spec {
 		}
 	}
 	rec(nil)
-	return []seqmc.Spec{{Name: fmt.Sprintf("client-library view: every sequence of <=%d notifications (updates of 3 leaves x 2 timestamps x 2 values, 8 delete patterns, Connected) through the real CacheClient", maxLen), N: len(seqs), Run: func(i int) (string, bool, []seqmc.Violation) {
+	return []seqmc.Spec{{Name: fmt.Sprintf("client-library view: every sequence of <=%d notifications (updates of 3 leaves x 2 timestamps x 2 values, 8 delete patterns, Connected, Sync, and the stream ending + Close + Subscribe again on the same client object) through the real CacheClient", maxLen), N: len(seqs), Run: func(i int) (string, bool, []seqmc.Violation) {
 		var script []ev
 		var names []string
 		for _, k := range seqs[i] {
@@ -143,14 +162,29 @@ func (harness) Specs(tier string) []seqmc.Spec {
 			}
 		}
 		client.ResetRegisteredImpls()
+		pos, sessions, delivered := 0, 1, 0
+		for _, e := range script {
+			if e.kind == "reopen" {
+				sessions++
+			} else {
+				delivered++
+			}
+		}
 		client.RegisterTest("scripted", func(ctx context.Context, d client.Destination) (client.Impl, error) {
-			return &impl{script: script}, nil
+			return &impl{script: script, pos: &pos}, nil
 		})
 		c := client.New()
 		seen := 0
 		q := client.Query{Addrs: []string{"x"}, Target: "t", Type: client.Stream, Queries: []client.Path{{"*"}}, NotificationHandler: func(client.Notification) error { seen++; return nil }}
-		if err := c.Subscribe(context.Background(), q, "scripted"); err != nil {
-			return desc, true, vio("client-subscribe", "%s: Subscribe returned %v", desc, err)
+		for k := 0; k < sessions; k++ {
+			if k > 0 {
+				if err := c.Close(); err != nil {
+					return desc, true, vio("client-close", "%s: Close returned %v", desc, err)
+				}
+			}
+			if err := protect(func() error { return c.Subscribe(context.Background(), q, "scripted") }); err != nil {
+				return desc, true, vio("client-subscribe", "%s: Subscribe #%d returned %v", desc, k+1, err)
+			}
 		}
 		got := map[string]int{}
 		for _, l := range c.Leaves() {
@@ -167,8 +201,8 @@ func (harness) Specs(tier string) []seqmc.Spec {
 		if render(got) != render(model) {
 			return desc, true, vio("client-view-differs", "after [%s] the client library's cache holds {%s}, the notifications it was given amount to {%s}", desc, render(got), render(model))
 		}
-		if seen != len(script) {
-			return desc, true, vio("client-handler-calls", "after [%s] the application's handler was called %d times for %d notifications", desc, seen, len(script))
+		if seen != delivered {
+			return desc, true, vio("client-handler-calls", "after [%s] the application's handler was called %d times for %d notifications", desc, seen, delivered)
 		}
 		return desc, len(model) > 0, nil
 	}}}
